@@ -187,6 +187,25 @@ func freshProc(bin string, uri string, text *string, m *Msg) (open reply, ans re
 	return open, ans, herr
 }
 
+func freshDiagsProc(bin string, herr *string) func(uri, text string) (string, bool) {
+	return func(uri, text string) (string, bool) {
+		open, _, err := freshProc(bin, uri, &text, nil)
+		if err != nil {
+			*herr = err.Error()
+			return "", false
+		}
+		if open.crashed {
+			return "", false
+		}
+		for _, p := range publishedDiagnostics(open.notifs) {
+			if p.uri == uri {
+				return p.diags, true
+			}
+		}
+		return "[]", true
+	}
+}
+
 func executeSubproc(c Case, keepTrace bool, bin string) Result {
 	tr := core.NewTrace(keepTrace)
 	res := Result{Trace: tr, Probes: map[string]int{}}
@@ -202,7 +221,9 @@ func executeSubproc(c Case, keepTrace bool, bin string) Result {
 	p.hdr = c.Hdr
 	defer func() { p.kill() }()
 	latest := map[string]string{}
+	shown := map[string]string{}
 	updates := map[string]int{}
+	fd := freshDiagsProc(bin, &res.HarnessErr)
 	restart := func(i int) *core.Violation {
 		p.kill()
 		np, err := startProc(bin, c.Frags)
@@ -223,13 +244,12 @@ func executeSubproc(c Case, keepTrace bool, bin string) Result {
 			if died {
 				return viol("crash-consistency", "crash-on-harmless-text-after-restart", "re-opening "+u+" after a restart kills the new process: "+r2.panicV)
 			}
-			open, _, herr := freshProc(bin, u, &text, nil)
-			if herr != nil {
-				res.HarnessErr = herr.Error()
-				return nil
+			delete(shown, u)
+			if v := checkPublished(r2.notifs, latest, shown, fd); v != nil || res.HarnessErr != "" {
+				return v
 			}
-			if notifCanon(r2.notifs) != notifCanon(open.notifs) {
-				return viol("freshness", "diagnostics-differ-after-restart", fmt.Sprintf("%s: restarted process published %s ; fresh process %s", u, notifCanon(r2.notifs), notifCanon(open.notifs)))
+			if want, ok := fd(u, text); ok && shownOr(shown, u) != want {
+				return viol("freshness", "diagnostics-not-refreshed", fmt.Sprintf("after restart and re-open of %s the client shows %s ; a fresh process publishes %s", u, shownOr(shown, u), want))
 			}
 		}
 		return nil
@@ -259,7 +279,7 @@ func executeSubproc(c Case, keepTrace bool, bin string) Result {
 		}
 		rep.crashed = died
 		tr.Add("msg %d %s %s (%d,%d) -> died=%v result=%s notifs=%s", i+1, m.Kind, m.URI, m.Line, m.Char, died, core.Truncate(answerCanon(m.Kind, rep.result), 300), core.Truncate(notifCanon(rep.notifs), 300))
-		if v := checkReplySub(bin, m, rep, latest, updates, &res); v != nil || res.HarnessErr != "" {
+		if v := checkReplySub(bin, m, rep, latest, shown, fd, updates, &res); v != nil || res.HarnessErr != "" {
 			if v != nil {
 				v.Detail = fmt.Sprintf("[real binary] message %d of %d: %s", i+1, len(c.Msgs), v.Detail)
 			}
@@ -282,7 +302,7 @@ func executeSubproc(c Case, keepTrace bool, bin string) Result {
 }
 
 // checkReplySub mirrors checkReply with fresh *processes* as the reference.
-func checkReplySub(bin string, m Msg, rep reply, latest map[string]string, updates map[string]int, res *Result) *core.Violation {
+func checkReplySub(bin string, m Msg, rep reply, latest map[string]string, shown map[string]string, fd func(string, string) (string, bool), updates map[string]int, res *Result) *core.Violation {
 	switch m.Kind {
 	case "open", "change":
 		text := m.latestText()
@@ -301,12 +321,20 @@ func checkReplySub(bin string, m Msg, rep reply, latest map[string]string, updat
 		if open.crashed {
 			return viol("crash-consistency", "fresh-server-crashes-only", "a fresh process dies on this text, the long-lived one accepted it")
 		}
-		got, want := notifCanon(rep.notifs), notifCanon(open.notifs)
-		if got != want {
-			return viol("freshness", "stale-or-foreign-diagnostics", fmt.Sprintf("%s on %s published %s ; a fresh process publishes %s", m.Kind, m.URI, core.Truncate(got, 500), core.Truncate(want, 500)))
-		}
 		latest[m.URI] = text
 		updates[m.URI]++
+		if v := checkPublished(rep.notifs, latest, shown, fd); v != nil {
+			return v
+		}
+		want := "[]"
+		for _, p := range publishedDiagnostics(open.notifs) {
+			if p.uri == m.URI {
+				want = p.diags
+			}
+		}
+		if got := shownOr(shown, m.URI); got != want {
+			return viol("freshness", "diagnostics-not-refreshed", fmt.Sprintf("after %s on %s the client shows %s ; a fresh process publishes %s", m.Kind, m.URI, core.Truncate(got, 400), core.Truncate(want, 400)))
+		}
 		return nil
 	case "hover", "definition", "symbols":
 		var textp *string
@@ -330,8 +358,8 @@ func checkReplySub(bin string, m Msg, rep reply, latest map[string]string, updat
 		if ans.crashed {
 			return viol("crash-consistency", "fresh-server-crashes-only", "query kills a fresh process only")
 		}
-		if len(rep.notifs) != 0 {
-			return viol("freshness", "unexpected-notification", m.Kind+" published "+notifCanon(rep.notifs))
+		if v := checkPublished(rep.notifs, latest, shown, fd); v != nil {
+			return v
 		}
 		got, want := answerCanon(m.Kind, rep.result), answerCanon(m.Kind, ans.result)
 		if got != want {
@@ -345,6 +373,11 @@ func checkReplySub(bin string, m Msg, rep reply, latest map[string]string, updat
 		if rep.crashed {
 			return viol("crash-consistency", "history-dependent-crash", m.Kind+" killed the server process")
 		}
-		return nil
+		if m.Kind == "close" {
+			delete(latest, m.URI)
+			delete(shown, m.URI)
+			return nil
+		}
+		return checkPublished(rep.notifs, latest, shown, fd)
 	}
 }
